@@ -84,5 +84,5 @@ package yubiattest
 //@     invariant entry(ok) == 1 ==> forall(j, 0 <= j && j < hsize(hash), emAt(k, mOf(pub, sig), k - hsize(hash) + j) == elems(hashed)[off(hashed) + j])
 //@     invariant (emAt(k, mOf(pub, sig), 0) == 0 && emAt(k, mOf(pub, sig), 1) == 1 && (prefix1ok == 1 || prefix2ok == 1) &&
 //@       forall(j, 0 <= j && j < hsize(hash), emAt(k, mOf(pub, sig), k - hsize(hash) + j) == elems(hashed)[off(hashed) + j])) ==> entry(ok) == 1
-//@     invariant 2 <= i && (ok == 0 || ok == 1)
+//@     invariant 2 <= i && i <= k - correctTLen - 1 && (ok == 0 || ok == 1)
 //@     invariant ok == 1 <==> (entry(ok) == 1 && forall(j, 2 <= j && j < i, emAt(k, mOf(pub, sig), j) == 255))
